@@ -14,5 +14,8 @@ def serialize_lru(stems):
 
 
 def unserialize_lru(lru):
-    lru = lru.rstrip("|")
+    # NOTE: only the final separator goes, the last stem may end with pipes
+    if lru.endswith("|"):
+        lru = lru[:-1]
+
     return SERIALIZED_LRU_SPLITTER_RE.split(lru)
